@@ -265,7 +265,7 @@ class KernelEval:
             if lc is None or not isinstance(s.target, ast.Name):
                 raise KernelError(f"loop `for {norm(s.target)} in {norm(s.iter)}` outside the kernel fragment")
             par, ext = lc
-            canon = f"v{len(self.loops)}"
+            canon = f"v{max(len(self.loops), len(self.grid_vars))}"
             li = LoopInfo(s.target.id, canon, self.extent_text(ext), par, s)
             self.ren[s.target.id] = canon
             self.loops.append(li)
@@ -284,13 +284,16 @@ class KernelEval:
                 for c in conds:
                     if isinstance(c, ast.Compare) and isinstance(c.ops[0], ast.Lt) and isinstance(c.left, ast.Name):
                         got[c.left.id] = self.extent_text(c.comparators[0])
-                if set(got) == set(self.grid_vars):
-                    for gv in self.grid_vars:
+                bound = {l.var for l in self.loops}
+                if got and len(got) == len(conds) and set(got) <= set(self.grid_vars) - bound:
+                    # one guard for all grid variables or nested guards, one per variable
+                    pushed = [gv for gv in self.grid_vars if gv in got]
+                    for gv in pushed:
                         li = LoopInfo(gv, self.ren[gv], got[gv], True, s)
                         self.loops.append(li)
                         self.all_loops.append(li)
                     self.block(s.body)
-                    for _ in self.grid_vars:
+                    for _ in pushed:
                         self.loops.pop()
                     return
             raise KernelError(f"branch `if {norm(s.test)}` inside a kernel")
@@ -331,6 +334,9 @@ class KernelEval:
                 return
             if isinstance(t, ast.Subscript) and isinstance(t.value, ast.Name):
                 idxs = t.slice.elts if isinstance(t.slice, ast.Tuple) else [t.slice]
+                unguarded = [gv for gv in self.grid_vars if gv not in {l.var for l in self.loops}]
+                if unguarded:
+                    self.summary.problems.append(f"L{s.lineno}: `{norm(s)[:60]}` is outside the bounds guard of the grid variable(s) {unguarded}")
                 self.summary.stores.append(Store(t.value.id, tuple(self.idx_text(i) for i in idxs), self.ev(s.value),
                                                  list(self.loops), s))
                 return
@@ -370,3 +376,21 @@ class KernelEval:
 
 def summarise(T: AtomTable, fn: ast.FunctionDef) -> Summary:
     return KernelEval(T, fn).run()
+
+
+def output_coverage(sm: Summary, fn: ast.FunctionDef, ps: List[str]):
+    """How the kernel (J, areas, sites, edge_centers, out) covers its output: "loop" - one store out[v0, v1] with v1 over J.shape[1],
+    which the kernel itself asserts to be 2; "unrolled" - one store per column, out[v0, 0] and out[v0, 1], under the same assertion.
+    None when the stores are neither."""
+    asserted = any(norm(a.test) in (f"{ps[0]}.shape[1] == 2", f"2 == {ps[0]}.shape[1]") for a in fn.body if isinstance(a, ast.Assert))
+    if any(st.array != ps[4] for st in sm.stores) or not sm.stores:
+        return None
+    if len(sm.stores) == 1 and sm.stores[0].index == ("v0", "v1"):
+        ext = {l.canon: l.extent for l in sm.stores[0].loops}
+        if ext.get("v0") == f"{ps[3]}.shape[0]" and ext.get("v1") == f"{ps[0]}.shape[1]":
+            return "loop"
+        return None
+    if len(sm.stores) == 2 and sorted(st.index for st in sm.stores) == [("v0", "0"), ("v0", "1")] and asserted:
+        if all({l.canon: l.extent for l in st.loops} == {"v0": f"{ps[3]}.shape[0]"} for st in sm.stores):
+            return "unrolled"
+    return None
